@@ -18,7 +18,9 @@ CLAIM = dict(
          "merged list containing the three R lists (which may all differ) the k-sum of get_system_R's Ham equals "
          "Ham_SOC(k) + interlace(Hup(k), Hdown(k)) (same for the other matrices; non-magnetic case nspin=1: both blocks are "
          "the spin-up system WITHOUT conjugation, k-sum = Ham_SOC(k) + double_spin(Hup(k)), and the variant that "
-         "conjugates the down block is proved wrong); for c^2+s^2=1, |e|=1 in any field "
+         "conjugates the down block is proved wrong; the Fourier sum of a channel is invariant under a simultaneous "
+         "permutation of its R list and matrix list, and summing the down matrices with the up list is correct for identical "
+         "lists and wrong for equal-length different lists); for c^2+s^2=1, |e|=1 in any field "
          "with conjugation (instantiated for the complex numbers and every theta, phi): C_ss is unitary, the rotated "
          "matrices are Hermitian, obey sigma_a sigma_b = delta_ab + i eps_abc sigma_c, and n.sigma' = diag(1,-1) with "
          "n = (sin(theta)cos(phi), sin(theta)sin(phi), cos(theta)); the SOC Hamiltonian blocks assembled by "
@@ -33,6 +35,8 @@ TRUSTED = [
     "(merge_Rvectors maps + scatter-add), SystemSOC.set_soc_axis (Ham_SOC blocks), SOC.get_C_ss / get_pauli_rotated",
     "not modelled (oracle only): Rvectors.double_spin, set_spin_pairs, the FFT R->k, eigvalsh, the SS matrix of "
     "set_soc_axis, Data_K_soc.Xbar, wannier-centre bookkeeping",
+    "chanSum / downOwn / downShared (each spin channel of Data_K_soc is Fourier-summed with its own R list; T6a-c) are "
+    "tied to the code by the oracle only (up/down lists identical, permuted, same size but different, different sizes)",
     "numpy `M[idx] += X` is modelled as accumulation; equal to numpy's buffered semantics because R lists have no "
     "repeated vectors (checked in the correspondence run)",
     "merge_Rvectors orders the merged list by Python set iteration; the theorems hold for every order, the "
